@@ -157,10 +157,26 @@ def phased_iswap(p, t):
     return M([[1, 0, 0, 0], [0, c, I_ * s * f, 0], [0, I_ * s * f.conjugate(), c, 0], [0, 0, 0, 1]])
 
 
-def phased_x_pow(p, t, s_=0):
-    # Z^p X^t Z^-p
-    z, zi = z_pow(p), z_pow(-Angle.of(p))
-    return z.dot(x_pow(t)).dot(zi)
+def _mm(A, B):
+    n = A.shape[0]
+    out = np.empty((n, n), dtype=object)
+    for i in range(n):
+        for j in range(n):
+            acc = TrigPoly()
+            for k in range(n):
+                acc = acc + TrigPoly.const(A[i, k]) * TrigPoly.const(B[k, j]) if not isinstance(A[i, k], TrigPoly) or not isinstance(B[k, j], TrigPoly) else acc + A[i, k] * B[k, j]
+            out[i, j] = acc
+    return out
+
+
+def phased_x_pow(p, t):
+    # documented: Z**p X**t Z**-p
+    return _mm(_mm(z_pow(p), x_pow(t)), z_pow(-Angle.of(p)))
+
+
+def phased_xz(x, z, a):
+    # documented: Z**z Z**a X**x Z**-a
+    return _mm(_mm(_mm(z_pow(z), z_pow(a)), x_pow(x)), z_pow(-Angle.of(a)))
 
 
 def _eigen(cls, **extra):
@@ -214,6 +230,13 @@ def other_families():
         "PhasedFSimGate": dict(make=lambda theta, zeta, chi, gamma, phi: _raw(cirq.PhasedFSimGate, _theta=theta, _zeta=zeta, _chi=chi, _gamma=gamma, _phi=phi),
                                params={"theta": angles, "zeta": [0, np.pi / 2], "chi": [0, np.pi / 2], "gamma": [0, np.pi / 2], "phi": [0, np.pi]},
                                matrix=phased_fsim, phase=None, qid_shape=(2, 2)),
+        "PhasedXPowGate": dict(make=lambda p, t, s: _raw(cirq.PhasedXPowGate, _phase_exponent=p, _exponent=t, _global_shift=s, _canonical_exponent_cached=None),
+                               params={"p": [0, Fraction(1, 4), Fraction(1, 2)], "t": [1, Fraction(1, 2), 0], "s": [0, Fraction(-1, 2)]},
+                               matrix=lambda p, t, s: phased_x_pow(p, t), phase=lambda p, t, s: cis(PI * Angle.of(t) * Angle.of(s)), qid_shape=(2,)),
+        "PhasedXZGate": dict(make=lambda x, z, a: cirq.PhasedXZGate(x_exponent=x, z_exponent=z, axis_phase_exponent=a),
+                             params={"x": [Fraction(1, 2), Fraction(-1, 2), Fraction(3, 2), Fraction(-3, 2), Fraction(5, 2), Fraction(-5, 2), Fraction(7, 2), 1, 0, 2, Fraction(1, 4)],
+                                     "z": [0, Fraction(1, 2)], "a": [0, Fraction(1, 4)]},
+                             matrix=phased_xz, phase=None, qid_shape=(2,)),
         "PhasedISwapPowGate": dict(make=lambda p, t: _raw(cirq.PhasedISwapPowGate, _phase_exponent=p, _iswap=cirq.ISwapPowGate(exponent=t),
                                                            _exponent=t, _global_shift=0, _canonical_exponent_cached=None), params={"p": [0, Fraction(1, 4)], "t": [1, 0, Fraction(1, 2)]},
                                    matrix=phased_iswap, phase=None, qid_shape=(2, 2)),
